@@ -62,7 +62,89 @@ func conflictSet(i int64, seed int64) []file {
 	r := prng.For(seed, "C05", "conflict", i)
 	pick := func(xs ...string) string { return xs[r.Intn(len(xs))] }
 	var fs []file
-	switch i % 11 {
+	switch i % 13 {
+	case 12: // rings of typedefs of length 2-4 that run through union members, plain chains, or both; in one module or across modules
+		n := 2 + r.Intn(3)
+		across := r.Intn(2) == 0
+		var mods [2]strings.Builder
+		mods[0].WriteString("module ra { namespace \"urn:ra\"; prefix ra; import rb { prefix rb; }\n")
+		mods[1].WriteString("module rb { namespace \"urn:rb\"; prefix rb; import ra { prefix ra; }\n")
+		home := func(k int) int {
+			if across {
+				return k % 2
+			}
+			return 0
+		}
+		ref := func(from, to int) string {
+			if home(from) == home(to) {
+				return fmt.Sprintf("T%d", to)
+			}
+			return fmt.Sprintf("%s:T%d", []string{"ra", "rb"}[home(to)], to)
+		}
+		for k := 0; k < n; k++ {
+			next := ref(k, (k+1)%n)
+			body := ""
+			switch r.Intn(3) {
+			case 0:
+				body = "type " + next + ";"
+			case 1:
+				body = "type union { type " + next + "; type string; }"
+			default:
+				body = "type union { type int8; type union { type " + next + "; } }"
+			}
+			fmt.Fprintf(&mods[home(k)], "  typedef T%d { %s }\n  leaf l%d { type T%d; }\n", k, body, k, k)
+		}
+		// an innocent typedef and user, and one that hangs off the ring
+		fmt.Fprintf(&mods[0], "  typedef ok { type int8; }\n  leaf fine { type ok; }\n  typedef hanger { type union { type T0; type boolean; } }\n  leaf h { type hanger; }\n")
+		mods[0].WriteString("}\n")
+		mods[1].WriteString("}\n")
+		fs = append(fs, file{"ra.yang", mods[0].String()}, file{"rb.yang", mods[1].String()})
+	case 11: // rings of groupings of length 2-4, in one module, across two modules, or through a submodule
+		n := 2 + r.Intn(3)
+		layout := r.Intn(3)
+		var mods [2]strings.Builder
+		sub := ""
+		if layout == 2 {
+			sub = "include rs; "
+		}
+		mods[0].WriteString("module ga { namespace \"urn:ga\"; prefix ga; import gb { prefix gb; } " + sub + "\n")
+		mods[1].WriteString("module gb { namespace \"urn:gb\"; prefix gb; import ga { prefix ga; }\n")
+		var subText strings.Builder
+		subText.WriteString("submodule rs { belongs-to ga { prefix ga; }\n")
+		home := func(k int) int {
+			switch layout {
+			case 1:
+				return k % 2
+			case 2:
+				if k%2 == 1 {
+					return 2
+				}
+			}
+			return 0
+		}
+		dst := func(k int) *strings.Builder {
+			if home(k) == 2 {
+				return &subText
+			}
+			return &mods[home(k)]
+		}
+		ref := func(from, to int) string {
+			hf, ht := home(from), home(to)
+			if hf == ht || (hf != 1 && ht != 1) {
+				return fmt.Sprintf("g%d", to)
+			}
+			return fmt.Sprintf("%s:g%d", []string{"ga", "gb", "ga"}[ht], to)
+		}
+		for k := 0; k < n; k++ {
+			fmt.Fprintf(dst(k), "  grouping g%d { leaf m%d { type string; } %s }\n  container c%d { uses g%d; }\n", k, k, pick("uses "+ref(k, (k+1)%n)+";", "container in { uses "+ref(k, (k+1)%n)+"; }"), k, k)
+		}
+		mods[0].WriteString("  grouping fine { leaf f { type string; } }\n  container cf { uses fine; }\n}\n")
+		mods[1].WriteString("}\n")
+		subText.WriteString("}\n")
+		fs = append(fs, file{"ga.yang", mods[0].String()}, file{"gb.yang", mods[1].String()})
+		if layout == 2 {
+			fs = append(fs, file{"rs.yang", subText.String()})
+		}
 	case 10: // statements kept in Entry.Extra (if-feature) on grouping members, on the uses and inside augments, from several modules
 		fs = append(fs, file{"g.yang", "module g { namespace \"urn:g\"; prefix g; feature ipv4; feature ipv6; grouping addr { leaf address { if-feature ipv4; " + pick("", "if-feature ipv6;") + " type string; } container opts { if-feature ipv6; leaf o { type string; } } leaf plain { type string; } } }"})
 		for _, n := range []string{"east", "west", "north"}[:2+r.Intn(2)] {
@@ -301,6 +383,16 @@ func CLI(j *job.Job, s *job.Sink) {
 		for _, m := range g.Mods {
 			n := m.Name + ".yang"
 			t := schema.Print(m)
+			os.WriteFile(filepath.Join(dir, n), []byte(t), 0o644)
+			names = append(names, n)
+			fs = append(fs, file{n, t})
+		}
+		// Every other set also has a module with types that are equal in everything but their
+		// names (and, written in place, in nothing but their position): a formatter that
+		// lists "each type once" must still list the same ones every time.
+		if c%2 == 0 {
+			n := "zzmeter.yang"
+			t := "module zzmeter {\n  namespace \"urn:zzmeter\";\n  prefix zm;\n  typedef cpu-load { type uint8 { range \"0..100\"; } units percent; }\n  typedef disk-fill { type uint8 { range \"0..100\"; } units percent; }\n  typedef label { type string { length \"1..32\"; } }\n  typedef tag { type string { length \"1..32\"; } }\n  container meter {\n    leaf cpu { type cpu-load; }\n    leaf disk { type disk-fill; }\n    leaf name { type label; }\n    leaf kind { type tag; }\n    leaf a { type int16 { range \"1..9\"; } }\n    leaf b { type int16 { range \"1..9\"; } }\n  }\n}\n"
 			os.WriteFile(filepath.Join(dir, n), []byte(t), 0o644)
 			names = append(names, n)
 			fs = append(fs, file{n, t})
